@@ -127,6 +127,33 @@ func (m *Module) Call(name string, args Tuple, kwargs StringDict) (Object, error
 // Interfaces
 var _ IGetDict = (*Module)(nil)
 
+// instanceGlobals returns the globals a new instance of a module
+// implementation starts with: a copy of the implementation's Globals in
+// which the mutable containers (list, dict, set) are copied as well.
+//
+// A ModuleImpl is shared by all contexts of the process, so a container
+// left in place would be one object in every context's instance of the
+// module (os.environ, sys.path, sys.argv): a write in one context would
+// show in all the others.
+func instanceGlobals(implGlobals StringDict) StringDict {
+	globals := implGlobals.Copy()
+	for name, value := range globals {
+		switch v := value.(type) {
+		case *List:
+			globals[name] = v.Copy()
+		case StringDict:
+			globals[name] = v.Copy()
+		case *Set:
+			set := NewSetWithCapacity(len(v.items))
+			for item := range v.items {
+				set.items[item] = SetValue{}
+			}
+			globals[name] = set
+		}
+	}
+	return globals
+}
+
 // NewModule adds a new Module instance to this ModuleStore.
 // Each given Method prototype is used to create a new "live" Method bound this the newly created Module.
 // This func also sets appropriate module global attribs based on the given ModuleInfo (e.g. __name__).
@@ -137,7 +164,7 @@ func (store *ModuleStore) NewModule(ctx Context, impl *ModuleImpl) (*Module, err
 	}
 	m := &Module{
 		ModuleImpl: impl,
-		Globals:    impl.Globals.Copy(),
+		Globals:    instanceGlobals(impl.Globals),
 		Context:    ctx,
 	}
 	// Insert the methods into the module dictionary
